@@ -160,3 +160,138 @@ fn revoke_contract<const TABLE: u8, const L: usize, const NEIGH: bool>()
 #[kani::proof] #[kani::unwind(6)] fn k_cache_revoke_comp_removal_l2() { revoke_contract::<6, 2, true>(); }
 //# id=K.cache.revoke.comp_removal.L3 props=C06,C01 strength=bounded shape="list of length L=3 under the key, all ids symbolic; neighbour key and the 6 other lists hold one entry of the same id" tier=thorough fns=ReactCache::revoke_component_reactor
 #[kani::proof] #[kani::unwind(6)] fn k_cache_revoke_comp_removal_l3() { revoke_contract::<6, 3, true>(); }
+
+// ===============================================================================================================
+// K.dispatch.*: what a trigger queues (C01, C05, C14).  The schedule_* systems are called directly as functions with the
+// assumed Commands / Query / Res of the stub; the queued commands are read back from the command queue (typed).
+// Contract: queued ReactionCommands = one per entity-scoped registration of (target entity, this reaction type), in list
+// order, followed by one per type-wide registration of this type, in list order; each names the right source/target,
+// reaction type and reactor; for events: ONE payload entity is spawned first whose reader counter equals the number of
+// queued readers, and nothing at all is queued or spawned when there is no listener.
+// ===============================================================================================================
+use bevy::ecs::world::CommandQueue;
+use crate::react::react_component::verif_contracts::Val;
+
+fn er_with(entries: &[(EntityReactionType, SystemCommand)]) -> EntityReactors {
+    let mut er = EntityReactors::default();
+    let mut i = 0;
+    while i < entries.len() { er.insert(entries[i].0, h(entries[i].1)); i += 1; }
+    er
+}
+fn list_of(idsv: &[SystemCommand]) -> Vec<ReactorHandle> { let mut v = Vec::with_capacity(idsv.len()); let mut i = 0; while i < idsv.len() { v.push(h(idsv[i])); i += 1; } v }
+
+/// entity event for type u32 at `target`: S scoped listeners of the event type (+ one scoped entry of ANOTHER event type and one
+/// insertion entry that must not fire), W type-wide listeners (+ listeners of another type under another key).
+fn entity_event_contract<const S: usize, const W: usize, const HAS_ER: bool>() {
+    let mut world = World::new();
+    let mut queue = CommandQueue::default();
+    let mut cache = ReactCache::default();
+    let target = world.spawn_empty().id();   // (the entity-scoped list is handed to the system through Query::verif_single, not stored in the world)
+    let ev = EntityReactionType::Event(TypeId::of::<u32>());
+    let other_ev = EntityReactionType::Event(TypeId::of::<u16>());
+    let mut scoped = [SystemCommand(Entity::PLACEHOLDER); S];
+    let mut wide = [SystemCommand(Entity::PLACEHOLDER); W];
+    let mut i = 0; while i < S { scoped[i] = any_sys(); i += 1; }
+    let mut i = 0; while i < W { wide[i] = any_sys(); i += 1; }
+    let mut er = EntityReactors::default();
+    if HAS_ER {
+        er.insert(other_ev, h(fixed_sys(1)));
+        let mut i = 0; while i < S { er.insert(ev, h(scoped[i])); i += 1; }
+    }
+    if W > 0 { cache.any_entity_event_reactors.insert(TypeId::of::<u32>(), list_of(&wide)); }
+    let payload: u32 = kani::any();
+    {
+        let commands = Commands::verif_new(&mut queue, &world);
+        let q = Query::verif_single(target, if HAS_ER { Some(&mut er) } else { None });
+        ReactCache::schedule_entity_event_reaction::<u32>(In((target, payload)), commands, Res::verif_new(&cache), q);
+    }
+    let n = S + W;
+    if n == 0 { assert!(queue.verif_pending() == 0, "schedule_entity_event_reaction: no listener => nothing is queued and no payload entity is spawned"); }
+    else {
+        assert!(queue.verif_pending() == n + 1, "schedule_entity_event_reaction: one payload spawn + exactly one command per matching registration");
+        let sp = queue.verif_peek::<bevy::SpawnCommand<(DataEntityCounter, EntityEventData<u32>)>>(0);
+        assert!(sp.is_some(), "schedule_entity_event_reaction: the payload entity (reader counter + event data) is spawned first");
+        let sp = sp.unwrap();
+        assert!(crate::react::commands::verif_contracts::counter_value(&sp.bundle.0) == n, "schedule_entity_event_reaction: the reader counter equals the number of queued readers");
+        let d = sp.entity;
+        let mut k = 0;
+        while k < n {
+            let c = queue.verif_peek::<ReactionCommand>(1 + k);
+            assert!(c.is_some(), "schedule_entity_event_reaction: one EntityEvent command per matching registration");
+            let expect = if k < S { scoped[k] } else { wide[k - S] };
+            match c.unwrap() {
+                ReactionCommand::EntityEvent{ target: t, data_entity, reactor } =>
+                    assert!(*t == target && *data_entity == d && *reactor == expect, "schedule_entity_event_reaction: commands name the event's target, its payload entity and the registered reactor (scoped first, then type-wide, in list order)"),
+                _ => assert!(false, "schedule_entity_event_reaction: queues EntityEvent commands"),
+            }
+            k += 1;
+        }
+    }
+    core::mem::forget(er); core::mem::forget(queue); core::mem::forget(cache); core::mem::forget(world);
+}
+//# id=K.dispatch.entity_event.s0w0 props=C01,C05 strength=complete shape="target without EntityReactors, no type-wide listener" tier=quick fns=ReactCache::schedule_entity_event_reaction
+#[kani::proof] #[kani::unwind(8)] fn k_dispatch_entity_event_s0w0() { entity_event_contract::<0, 0, false>(); }
+//# id=K.dispatch.entity_event.s0w0_er props=C01,C05 strength=complete shape="target with EntityReactors holding only other event types, no type-wide listener" tier=quick fns=ReactCache::schedule_entity_event_reaction,EntityReactors::count,EntityReactors::iter_rtype
+#[kani::proof] #[kani::unwind(8)] fn k_dispatch_entity_event_s0w0_er() { entity_event_contract::<0, 0, true>(); }
+//# id=K.dispatch.entity_event.s1w1 props=C01,C05 strength=bounded shape="1 scoped + 1 type-wide listener (ids symbolic), plus a scoped entry of another type" tier=quick fns=ReactCache::schedule_entity_event_reaction,EntityReactors::count,EntityReactors::iter_rtype
+#[kani::proof] #[kani::unwind(8)] fn k_dispatch_entity_event_s1w1() { entity_event_contract::<1, 1, true>(); }
+//# id=K.dispatch.entity_event.s0w2 props=C01,C05 strength=bounded shape="target without EntityReactors, 2 type-wide listeners" tier=quick fns=ReactCache::schedule_entity_event_reaction
+#[kani::proof] #[kani::unwind(8)] fn k_dispatch_entity_event_s0w2() { entity_event_contract::<0, 2, false>(); }
+//# id=K.dispatch.entity_event.s2w0 props=C01,C05 strength=bounded shape="2 scoped listeners, no type-wide listener" tier=thorough fns=ReactCache::schedule_entity_event_reaction,EntityReactors::count,EntityReactors::iter_rtype
+#[kani::proof] #[kani::unwind(8)] fn k_dispatch_entity_event_s2w0() { entity_event_contract::<2, 0, true>(); }
+
+/// insertion / mutation of component Val on `entity`: S scoped listeners of (kind, Val) (+ one scoped entry of the OTHER kind),
+/// W type-wide listeners of that kind (+ one in each of the two other lists of the same component).
+fn entity_reaction_contract<const MUTATION: bool, const S: usize, const W: usize, const HAS_ER: bool>() {
+    let mut world = World::new();
+    let mut queue = CommandQueue::default();
+    let mut cache = ReactCache::default();
+    let entity = world.spawn_empty().id();
+    let t = TypeId::of::<Val>();
+    let rt = if MUTATION { EntityReactionType::Mutation(t) } else { EntityReactionType::Insertion(t) };
+    let other_rt = if MUTATION { EntityReactionType::Insertion(t) } else { EntityReactionType::Mutation(t) };
+    let mut scoped = [SystemCommand(Entity::PLACEHOLDER); S];
+    let mut wide = [SystemCommand(Entity::PLACEHOLDER); W];
+    let mut i = 0; while i < S { scoped[i] = any_sys(); i += 1; }
+    let mut i = 0; while i < W { wide[i] = any_sys(); i += 1; }
+    let mut er = EntityReactors::default();
+    if HAS_ER {
+        er.insert(other_rt, h(fixed_sys(1)));
+        let mut i = 0; while i < S { er.insert(rt, h(scoped[i])); i += 1; }
+    }
+    let mut cr = ComponentReactors{ insertion_callbacks: Vec::new(), mutation_callbacks: Vec::new(), removal_callbacks: one(fixed_sys(2)) };
+    if MUTATION { cr.mutation_callbacks = list_of(&wide); cr.insertion_callbacks = one(fixed_sys(3)); } else { cr.insertion_callbacks = list_of(&wide); cr.mutation_callbacks = one(fixed_sys(3)); }
+    cache.component_reactors.insert(t, cr);
+    {
+        let commands = Commands::verif_new(&mut queue, &world);
+        let q = Query::verif_single(entity, if HAS_ER { Some(&mut er) } else { None });
+        if MUTATION { ReactCache::schedule_mutation_reaction::<Val>(In(entity), ResMut::verif_new(&mut cache), commands, q); }
+        else { ReactCache::schedule_insertion_reaction::<Val>(In(entity), ResMut::verif_new(&mut cache), commands, q); }
+    }
+    let n = S + W;
+    assert!(queue.verif_pending() == n, "schedule_insertion/mutation_reaction: exactly one command per matching registration (entity-scoped of this kind + type-wide of this kind), nothing else");
+    let mut k = 0;
+    while k < n {
+        let c = queue.verif_peek::<ReactionCommand>(k);
+        assert!(c.is_some(), "schedule_insertion/mutation_reaction: queues EntityReaction commands");
+        let expect = if k < S { scoped[k] } else { wide[k - S] };
+        match c.unwrap() {
+            ReactionCommand::EntityReaction{ reaction_source, reaction_type, reactor } =>
+                assert!(*reaction_source == entity && *reaction_type == rt && *reactor == expect, "schedule_insertion/mutation_reaction: commands name the changed entity, this reaction kind and component type, and the registered reactor"),
+            _ => assert!(false, "schedule_insertion/mutation_reaction: queues EntityReaction commands"),
+        }
+        k += 1;
+    }
+    assert!(cache.reaction_commands_buffer.len() == 0, "schedule_insertion/mutation_reaction: the scratch buffer is left empty");
+    core::mem::forget(er); core::mem::forget(queue); core::mem::forget(cache); core::mem::forget(world);
+}
+//# id=K.dispatch.mutation.s0w1_er props=C01,C14 strength=bounded shape="entity with EntityReactors holding only another kind, 1 type-wide mutation listener" tier=quick fns=ReactCache::schedule_mutation_reaction,schedule_entity_reaction_impl
+#[kani::proof] #[kani::unwind(8)] fn k_dispatch_mutation_s0w1_er() { entity_reaction_contract::<true, 0, 1, true>(); }
+//# id=K.dispatch.mutation.s1w1 props=C01,C14 strength=bounded shape="1 scoped + 1 type-wide mutation listener" tier=quick fns=ReactCache::schedule_mutation_reaction,schedule_entity_reaction_impl
+#[kani::proof] #[kani::unwind(8)] fn k_dispatch_mutation_s1w1() { entity_reaction_contract::<true, 1, 1, true>(); }
+//# id=K.dispatch.mutation.s0w0 props=C01,C14 strength=complete shape="entity without EntityReactors, no type-wide mutation listener (other lists non-empty)" tier=quick fns=ReactCache::schedule_mutation_reaction
+#[kani::proof] #[kani::unwind(8)] fn k_dispatch_mutation_s0w0() { entity_reaction_contract::<true, 0, 0, false>(); }
+//# id=K.dispatch.insertion.s0w1_er props=C01,C14 strength=bounded shape="entity with EntityReactors holding only another kind, 1 type-wide insertion listener" tier=quick fns=ReactCache::schedule_insertion_reaction,schedule_entity_reaction_impl
+#[kani::proof] #[kani::unwind(8)] fn k_dispatch_insertion_s0w1_er() { entity_reaction_contract::<false, 0, 1, true>(); }
+//# id=K.dispatch.insertion.s1w1 props=C01,C14 strength=bounded shape="1 scoped + 1 type-wide insertion listener" tier=quick fns=ReactCache::schedule_insertion_reaction,schedule_entity_reaction_impl
+#[kani::proof] #[kani::unwind(8)] fn k_dispatch_insertion_s1w1() { entity_reaction_contract::<false, 1, 1, true>(); }
